@@ -63,6 +63,11 @@ def gen_cases(tier, seed):
         segs = [[(1 << 20) + w0, r.choice([1, 4973, ln - w0])]]
         yield {"kind": "file", "size": (4 << 20) + r.choice([0, 1]), "segs": segs, "falloc": [[1 << 20, ln]], "sync": False, "fs": "ext4",
                "seed": r.randrange(1, 1 << 30), "first0": False, "lastbyte": False, "dense": False, "touching": False, "prealloc_unsynced": True}
+    for nseg in ([8300] if tier == "quick" else [8191, 8192, 8193, 12000, 20000]):
+        # thousands of extents (hundreds of FIEMAP pages): "for any number of extents"
+        segs = [[k * 3 * PAGE, PAGE if k % 7 else 100] for k in range(nseg)]
+        yield {"kind": "file", "size": segs[-1][0] + segs[-1][1], "segs": segs, "sync": True, "fs": "ext4", "seed": r.randrange(1, 1 << 30),
+               "first0": True, "lastbyte": True, "dense": False, "huge_count": True}
     for i in range(12 if tier == "quick" else 100):
         size = r.choice([0, 1, 4095, 4096, 4097, 100000, 1 << 20])
         yield {"kind": "file", "size": size, "segs": None, "sync": r.random() < 0.5, "fs": "tmpfs" if r.random() < 0.3 else "ext4", "seed": r.randrange(1, 1 << 30),
@@ -107,7 +112,7 @@ def check_ranges(name, ranges, size, written, path, res, tag):
             if z <= a:
                 continue
             # only the parts of the gap that intersect something we wrote can be non-zero; for small files read it all
-            parts = [(a, z)] if size <= (64 << 20) else [(max(a, o), min(z, o + l)) for o, l in written if max(a, o) < min(z, o + l)]
+            parts = [(a, z)] if size <= (256 << 20) else [(max(a, o), min(z, o + l)) for o, l in written if max(a, o) < min(z, o + l)]
             for x, y in parts:
                 p = x
                 while p < y:
